@@ -39,6 +39,8 @@ pub mod site {
     pub const U_INC_FAA2: u32 = 2;
     pub const U_ISND_LOAD: u32 = 3;
     pub const U_ISND_CAS: u32 = 4;
+    pub const U_ISND_EPOCH: u32 = 5;
+    pub const U_DG_MARK_CAS: u32 = 38;
     pub const U_DEC_EPOCH: u32 = 10;
     pub const U_DEC_LOAD: u32 = 11;
     pub const U_DEC_CAS: u32 = 12;
